@@ -67,6 +67,21 @@ def gen_cases(rng, tier, info):
         for e, row in forms(t):
             bcmds.append("(expr_eval %s %s)" % (X.enc_expr(e), X.enc_row(row)))
     cases += [Case("concat-%d" % i, bcmds[i:i + 6]) for i in range(0, len(bcmds), 6)]
+    # the SAME expression object evaluated on rows of different layouts (another table, a projection that reorders or drops
+    # columns, a join result): a column is found by its name in each row
+    lcmds = []
+    names = ["Key", "Low", "High", "S"]
+    for _ in range(60 if tier == "quick" else 2000):
+        e = X.random_expr(rng, rng.randint(1, 3), names, [None, 0, 1, 5, "a"], 0.8)
+        rows = []
+        for _ in range(rng.randint(2, 4)):
+            order = names[:]
+            rng.shuffle(order)
+            extra = ["Pad%d" % i for i in range(rng.randint(0, 2))]
+            layout = extra[:1] + order + extra[1:]
+            rows.append([(n, rng.choice([None, 0, 1, 2, 5, -3, "a", "b"])) for n in layout])
+        lcmds.append("(x_expr_eval_rows %s (%s))" % (X.enc_expr(e), " ".join(X.enc_row(r) for r in rows)))
+    cases += [Case("layouts-%d" % i, lcmds[i:i + 30]) for i in range(0, len(lcmds), 30)]
     info.update({"trees": len(trees), "depth1_trees": depth1, "random_trees": n_rand, "commands": len(cmds),
                  "exhaustive": True, "exhaustive_note": "depth-1 trees over all 18 operators x 12 literals are complete"})
     return cases
@@ -94,6 +109,18 @@ def oracle(ctx):
     for c, outs in zip(ctx.cases, ctx.impl_out):
         for cmd, o in zip(c.cmds, outs):
             sx = X.parse_sx(cmd)
+            if sx[0] == "x_expr_eval_rows":
+                e = sx_to_expr(sx[1])
+                wants = [X.ref_eval(e, [("".join(chr(ch) for ch in p[0]), X.dec_value(p[1])) for p in r]) for r in sx[2]]
+                if o in ("panic", "abort", "timeout"):
+                    bad.append({"what": "evaluating one expression on several rows panicked", "cmds": [cmd], "impl": o})
+                    continue
+                got = X.parse_sx(o)
+                gots = [X.dec_value(g) for g in got[1]] if got[0] == "ok" else None
+                if gots is None or len(gots) != len(wants) or any(g != w2 or type(g) != type(w2) for g, w2 in zip(gots, wants)):
+                    bad.append({"what": "the same expression evaluated on rows of different layouts: got %r, the documented operators give %r" % (gots, wants),
+                                "cmds": [cmd], "impl": o})
+                continue
             if sx[0] != "expr_eval":
                 continue
             e = sx_to_expr(sx[1])
